@@ -16,9 +16,9 @@ LEVEL_TEXT = ("Partial. Proved for the model, all sizes: r' = least power of two
               "r'-term truncation with the target is N = sqrt(sum_{i<r'} s_i^2), |overlap|^2 = sum_{i<r'} s_i^2, the "
               "truncation has norm 1 and the target norm^2 sum_{i<k} s_i^2 (C07_fidelity); when the dropped coefficients "
               "vanish the truncation is v/N, i.e. v itself for a unit vector (C07_exact_when_full); the Plesch assembly "
-              "(fan-out then U (x) V^T) has matrix sum_j U[:,j] t_j V[j,:] (C07_assembly); for an increasing partition the "
-              "registers on which U and V^T are placed carry exactly the row/column bits of the reshape, for every n "
-              "(C07_placement), and for the unsorted list [1,0] they do not (C07_placement_unsorted_witness). NOT proved: "
+              "(fan-out then U (x) V^T) has matrix sum_j U[:,j] t_j V[j,:] (C07_assembly); for every duplicate-free "
+              "partition list in any order (the code sorts it first) the registers on which U and V^T are placed carry "
+              "exactly the row/column bits of the reshape, for every n (C07_placement). NOT proved: "
               "that no state of Schmidt rank r' does better (Eckart-Young-Mirsky: mathematics independent of the code, cited); "
               "that the encoders (isometry/unitary/state-preparation circuits, C01-C03) implement their matrices (K4). Tie: "
               "rank, ebits, registers, CNOT fan-out pairs and encoder choice per block observed on the real "
@@ -29,15 +29,16 @@ LEVEL_NOTE = ("Trusted: Lean kernel (standard axioms); np.linalg.svd specificati
               "Statevector oracle); qiskit compose/reverse_bits/Statevector qubit conventions; exact arithmetic vs float "
               "(threshold 1e-7 exact, inputs keep singular values outside [1e-9, 1e-5]); Eckart-Young-Mirsky cited.")
 LEAN_TARGETS = ["QclibModel.Props.C07"]
+DRIVER = "Drivers/C07.lean"
 THEOREMS = ["Qclib.C07_rank_rule", "Qclib.C07_fidelity", "Qclib.C07_exact_when_full", "Qclib.C07_assembly",
-            "Qclib.C07_placement", "Qclib.C07_placement_unsorted_witness"]
+            "Qclib.C07_placement"]
 TRUSTED = [
     "np.linalg.svd specification (M = U diag(s) Vh, orthonormal factors, s sorted non-increasing >= 0) - hypothesis of C07_fidelity / C07_exact_when_full",
     "the encoders chosen by _encode (qclib.isometry.decompose, qclib.unitary.unitary, nested LowRankInitialize) implement the given matrix on |0..0> resp. as a unitary (properties C01-C03), and qiskit's compose / reverse_bits / Statevector little-endian conventions - validated end-to-end by the Statevector oracle each run",
     "Eckart-Young-Mirsky theorem (the r'-term truncation maximises the overlap among states of Schmidt rank <= r') - cited, not proved",
 ]
 ASSUMPTIONS = ["exact arithmetic in the theorems; implementation compared to 1e-7",
-               "partition passed as an increasing list (C07_placement); unsorted lists are probed separately (finding lowrank.partition-order)"]
+               "partition: duplicate-free list of qubits < n in any order (C07_placement); unsorted lists are exercised in tie and oracle and by a fixed regression probe (key lowrank.partition-order:unsorted-list)"]
 RULE = ("tie: (n, partition list, lr, scheme pair) whose observed plan (rank, ebits, registers, fan-out pairs, encoder kind and "
         "shape per block) was diffed against the Lean model; oracle: (family, n, partition, lr, scheme pair) on which the "
         "Statevector of the real LowRankInitialize was compared with an independent numpy truncation and the fidelity with the "
@@ -107,7 +108,11 @@ def observe_plan(v, n, part, lr, iso, uni):
             mock.patch.object(lowrank, "decompose_unitary", uni_stub), \
             mock.patch.object(lowrank, "schmidt_decomposition", sd_spy), \
             mock.patch.object(QuantumCircuit, "cx", cx_spy):
-        g._define_initialize()
+        try:
+            g._define_initialize()
+        except Exception as ex:   # the real code failed on a valid input: shows up as a tie diff, then the search runs
+            s = np.linalg.svd(_separation_matrix(n, v, list(part)), compute_uv=False)
+            return [f"raised-{type(ex).__name__}"], [float(x) for x in s]
     s = np.linalg.svd(_separation_matrix(n, v, list(part)), compute_uv=False)
     eff = int(_effective_rank(s))
     sd = [e for e in ev if e[0] == "sd"]
@@ -144,7 +149,7 @@ def tie_plan(ctx, v, n, part, lr, iso, uni):
 def run_tie(ctx):
     from props import c09
     rng = ctx.nprng()
-    nmax = 5 if ctx.quick else 7
+    nmax = 6 if ctx.quick else 7
     for n in range(2, nmax + 1):
         subsets = [list(s) for k in range(1, n) for s in itertools.combinations(range(n), k)]
         for sub in subsets:
@@ -168,13 +173,47 @@ def run_tie(ctx):
     from qclib.entanglement import low_rank_approximation, _to_qubits
     for eff in range(1, 20):
         for lr in range(0, 21):
-            r = low_rank_approximation(lr, np.zeros((1, eff)), np.zeros((eff, 1)), np.ones(eff))[0]
-            ctx.tie({"op": "rank", "lr": lr, "eff": eff}, [f"rank {int(r)}", f"ebits {int(_to_qubits(r))}"])
+            try:
+                r = low_rank_approximation(lr, np.zeros((1, eff)), np.zeros((eff, 1)), np.ones(eff))[0]
+                impl = [f"rank {int(r)}", f"ebits {int(_to_qubits(r))}"]
+            except Exception as ex:
+                impl = [f"raised-{type(ex).__name__}"]
+            ctx.tie({"op": "rank", "lr": lr, "eff": eff}, impl)
 
 
 # ---------------------------------------------------------------------------------------------
 # oracle
 # ---------------------------------------------------------------------------------------------
+
+def audit_encoders(v, n, opts):
+    """Which K4 encoder (qclib.isometry.decompose / qclib.unitary.unitary as called by _encode, at any
+    nesting depth) does not reproduce the matrix it was given?  Returns [(kind, rows, cols, err)]."""
+    from unittest import mock
+    from qiskit import QuantumCircuit
+    from qiskit.quantum_info import Operator, Statevector
+    from qclib.state_preparation import lowrank
+    found = []
+    orig_iso, orig_uni = lowrank.decompose_isometry, lowrank.decompose_unitary
+
+    def iso_chk(data, scheme="ccd"):
+        c = orig_iso(data, scheme=scheme)
+        err = float(np.abs(Operator(c).data[:, :data.shape[1]] - data).max())
+        found.append(("iso:" + scheme, int(data.shape[0]), int(data.shape[1]), err))
+        return c
+
+    def uni_chk(data, decomposition="qsd", **k):
+        c = orig_uni(data, decomposition=decomposition, **k)
+        err = float(np.abs(Operator(c).data - data).max())
+        found.append(("unitary:" + decomposition, int(data.shape[0]), int(data.shape[1]), err))
+        return c
+
+    with mock.patch.object(lowrank, "decompose_isometry", iso_chk), \
+            mock.patch.object(lowrank, "decompose_unitary", uni_chk):
+        qc = QuantumCircuit(n)
+        lowrank.LowRankInitialize.initialize(qc, v, opt_params=dict(opts))
+        Statevector(qc)
+    return found
+
 
 def eval_case(task):
     """Runs in a worker process.  Returns (key, problems, info)."""
@@ -224,7 +263,17 @@ def eval_case(task):
         err = float(np.abs(sv - t).max())
         if err > 1e-7:
             problems.append(f"prepared state differs from the independent rank-{want} truncation by {err:.2e}")
-    return task["key"], problems, {"rank": want, "eff": eff, "fid": fid, "truncated": want < eff}
+    info = {"rank": want, "eff": eff, "fid": fid, "truncated": want < eff}
+    if problems and all("differs from" in p for p in problems):
+        # state is off although rank, norm and fidelity are right: is a K4 encoder inaccurate on its own matrix?
+        try:
+            aud = audit_encoders(v, n, opts)
+            worst = max(aud, key=lambda a: a[3]) if aud else None
+            if worst and worst[3] > 1e-8:
+                info["encoder_blame"] = {"kind": worst[0], "rows": worst[1], "cols": worst[2], "err": worst[3]}
+        except Exception:
+            pass
+    return task["key"], problems, info
 
 
 def make_task(name, n, part, v, lr, iso, uni):
@@ -234,6 +283,14 @@ def make_task(name, n, part, v, lr, iso, uni):
             "iso": iso, "uni": uni, "re": [float(x) for x in np.real(v)], "im": [float(x) for x in np.imag(v)],
             "real": bool(np.isrealobj(v)),
             "key": f"lowrank:{name}:n={n}:P={','.join(map(str, part))}:lr={lr}:{iso}/{uni}"}
+
+
+def report_finding(ctx, key, detail, rep):
+    """A defect whose root cause lies outside C07's own logic.  It is an ordinary failure with a
+    narrow key: if /verif/known_findings.json lists the key as `known` the framework prints
+    KNOWN-FINDING, otherwise it is a VIOLATION (this is how a repaired defect that returns is caught)."""
+    ctx.fail(key, detail, rep)
+    ctx.count("finding:" + key)
 
 
 def run_tasks(ctx, tasks, unsorted_probe=False):
@@ -256,7 +313,14 @@ def run_tasks(ctx, tasks, unsorted_probe=False):
         if problems:
             rep = {k: task[k] for k in ("family", "n", "partition", "lr", "iso", "uni", "re", "im", "real")}
             rep["call"] = "LowRankInitialize.initialize + Statevector"
-            ctx.fail(key, "; ".join(problems), rep)
+            blame = info.get("encoder_blame")
+            if blame:
+                report_finding(ctx, f"lowrank.encoder-precision:{blame['kind']}",
+                               f"{key}: " + "; ".join(problems) + f" -- root cause: the encoder {blame['kind']} called by _encode "
+                               f"reproduces its own {blame['rows']}x{blame['cols']} matrix only to {blame['err']:.2e} "
+                               "(rank, norm and fidelity are right)", rep)
+            else:
+                ctx.fail(key, "; ".join(problems), rep)
         else:
             ctx.count("truncated" if info["truncated"] else "untruncated")
             ctx.ok(key, nontrivial=True, sample={k: task[k] for k in ("family", "n", "partition", "lr", "iso", "uni")} | info)
@@ -279,30 +343,33 @@ def gen_tasks(ctx, nmax, nfull, per_n_budget):
                 if n >= 5 and name not in ("complex", "repeated"):
                     lrs = sorted(set([0, 1, ctx.rng.choice(lrs)]))
                 for lr in lrs:
-                    if n <= 3:
+                    if n <= 4:
                         pairs = SCHEMES
-                    elif n == 4:
-                        pairs = SCHEMES if name in ("complex", "real", "deficient3", "repeated") else (SCHEMES[lr % 2],)
                     else:
                         pairs = (SCHEMES[(lr + len(sub)) % 2],)
                     for iso, uni in pairs:
                         tasks.append(make_task(name, n, sub, v, lr, iso, uni))
+            # the same set handed over as an unsorted list (the code sorts it)
+            if len(sub) >= 2:
+                sh = list(sub)
+                while sh == sorted(sh):
+                    ctx.rng.shuffle(sh)
+                for name, v in [fams[0], ctx.rng.choice(fams[1:])]:
+                    for lr in sorted(set([0, 1, ctx.rng.randint(0, mind + 1)])):
+                        iso, uni = SCHEMES[(lr + n) % 2]
+                        tasks.append(make_task(name + "-shuffled", n, sh, v, lr, iso, uni))
     return tasks
 
 
 def probe_unsorted(ctx):
-    """LowRankInitialize with the partition given as an unsorted list.  The Schmidt decomposition is
-    taken across sorted(partition) but V^T is placed on partition[::-1] (theorem
-    C07_placement_unsorted_witness), so the prepared state is wrong.  Reported under one fixed key;
-    it fails the run only through the known-findings mechanism (see the module docstring of the final
-    report): if known_findings.json has an entry for the key the framework prints KNOWN-FINDING,
-    otherwise the observation is recorded as a note."""
-    import framework
+    """Regression probe: LowRankInitialize with the partition given as an unsorted list.  Before the
+    fix "LowRankInitialize sorts the partition before placing the isometries" the Schmidt decomposition
+    was taken across sorted(partition) while V^T was placed on partition[::-1], and the prepared state
+    was wrong (fidelity ~0.5 for [1, 0] on three qubits).  Fixed inputs, every run; a plain failure under
+    one fixed key if it is ever wrong again."""
     rng = np.random.default_rng(7)
     tasks = []
-    for n, part in ((2, None), (3, [1, 0]), (3, [2, 0]), (4, [2, 0, 1]), (4, [3, 1])):
-        if part is None:
-            continue
+    for n, part in ((3, [1, 0]), (3, [2, 0]), (4, [2, 0, 1]), (4, [3, 1]), (5, [4, 0, 2])):
         v = rng.normal(size=2 ** n) + 1j * rng.normal(size=2 ** n)
         v /= np.linalg.norm(v)
         for lr in (0, 1):
@@ -316,31 +383,55 @@ def probe_unsorted(ctx):
         return
     t, p = bad[0]
     detail = (f"LowRankInitialize(v, partition={t['partition']}, lr={t['lr']}) (n={t['n']}): " + "; ".join(p) +
-              f" [{len(bad)}/{len(res)} unsorted probes wrong; the same sets passed as increasing lists are right]")
-    registered = any(framework.known_match(k, UNSORTED_KEY) for k in framework.load_known()
-                     if k.get("property") == "C07" and k.get("status") == "known")
-    if registered:
-        rep = {k: t[k] for k in ("family", "n", "partition", "lr", "iso", "uni", "re", "im", "real")}
-        ctx.fail(UNSORTED_KEY, detail, rep)
+              f" [{len(bad)}/{len(res)} unsorted probes wrong]")
+    rep = {k: t[k] for k in ("family", "n", "partition", "lr", "iso", "uni", "re", "im", "real")}
+    ctx.fail(UNSORTED_KEY, detail, rep)
+
+
+PRECISION_M = [[-0.729069172542213, 0.493998485646007], [-0.5117022689246972, -0.3024283467785967],
+               [-0.37965359476427246, -0.00433375675044421], [-0.24996415264692562, -0.815158763552625]]
+
+
+def probe_encoder_precision(ctx):
+    """Fixed 3-qubit input on which qclib.isometry.decompose(scheme='csd') (= qclib.unitary.unitary(..,
+    'qsd', apply_a2=True)) reproduces its 4x2 isometry only to ~1e-5, so that the prepared state is off by
+    ~1e-5 although rank and fidelity are right.  Root cause is outside C07 (C02/C03: the apply_a2
+    optimisation); reported under the key lowrank.encoder-precision:iso:csd."""
+    from props import c09
+    m = np.array(PRECISION_M) * np.array([0.8, 0.6])
+    v = c09.ref_undo(3, m, [0])
+    v = v / np.linalg.norm(v)
+    t = make_task("precision-probe", 3, [0], v, 0, "ccd", "qsd")
+    key, problems, info = eval_case(t)
+    ctx.count("precision-probe:" + ("off" if problems else "accurate"))
+    if not problems:
+        ctx.ok("lowrank.encoder-precision:iso:csd", nontrivial=True)
+        return
+    rep = {k: t[k] for k in ("family", "n", "partition", "lr", "iso", "uni", "re", "im", "real")}
+    blame = info.get("encoder_blame")
+    if blame:
+        report_finding(ctx, f"lowrank.encoder-precision:{blame['kind']}",
+                       f"{key}: " + "; ".join(problems) + f" -- root cause: the encoder {blame['kind']} reproduces its own "
+                       f"{blame['rows']}x{blame['cols']} matrix only to {blame['err']:.2e}", rep)
     else:
-        ctx.notes.append("FINDING (not registered in known_findings.json, therefore not failing the run) key=" +
-                         UNSORTED_KEY + ": " + detail)
-        print(f"FINDING-UNREGISTERED: property=C07 [{UNSORTED_KEY}] {detail[:300]}")
+        ctx.fail(key, "; ".join(problems), rep)
 
 
 def run(ctx):
     from props import c09
     run_tie(ctx)
     if ctx.quick:
-        tasks = gen_tasks(ctx, nmax=5, nfull=4, per_n_budget=10)
+        tasks = gen_tasks(ctx, nmax=6, nfull=5, per_n_budget=8)
     else:
-        tasks = gen_tasks(ctx, nmax=6, nfull=5, per_n_budget=16)
+        tasks = gen_tasks(ctx, nmax=7, nfull=6, per_n_budget=30)
     run_tasks(ctx, tasks)
     probe_unsorted(ctx)
+    probe_encoder_precision(ctx)
     ctx.notes.append(f"generated vectors keep every Schmidt coefficient outside [{c09.BAND[0]}, {c09.BAND[1]}] (rank threshold 1e-7); "
                      "entry-wise comparison with the independent truncation only when the cut is not inside a cluster of "
-                     "equal singular values (gap > 1e-3), fidelity and exactness always; partitions are increasing lists "
-                     "(unsorted lists: see key " + UNSORTED_KEY + ")")
+                     "equal singular values (gap > 1e-3), fidelity and exactness always; partitions are passed as "
+                     "increasing lists and, for every subset of size >= 2, also as a shuffled list (families *-shuffled; fixed "
+                     "regression probe under key " + UNSORTED_KEY + ")")
 
 
 def search(ctx, hints):
@@ -350,9 +441,9 @@ def search(ctx, hints):
     for h in hints:
         op = h["op"]
         if op.get("op") == "plan":
-            n, p = op["n"], sorted(op["P"])
+            n, p = op["n"], list(op["P"])
             if n <= 8:
-                for name, v in c09.families(ctx, rng, n, p)[:3]:
+                for name, v in c09.families(ctx, rng, n, sorted(p))[:3]:
                     tasks.append(make_task(name, n, p, v, max(0, op["lr"]), op.get("iso", "ccd"), op.get("uni", "qsd")))
     tasks = tasks[:60] + gen_tasks(ctx, nmax=6, nfull=4, per_n_budget=12)
     run_tasks(ctx, tasks)
